@@ -12,7 +12,7 @@ RULE = ("reported BIC of every completed traced run vs the definition recomputed
         "alternating runs, unused clusters, hostile scales); non-trivial = completed run whose labelling has >=2 maximal runs of equal labels; "
         "distinct by case hash")
 ASSUMPTIONS = ["final model captured by wrapping the metric function; slogdet-based reference"]
-SHARD_TIMEOUT = {"quick": 900, "thorough": 3400}
+SHARD_TIMEOUT = {"quick": 300, "thorough": 3400}
 MIX = {"single:small": 3, "single:general": 3, "single:hostile": 2, "single:empty_final": 1, "joint:joint": 1}
 PROPS = ("C16",)
 
